@@ -87,6 +87,25 @@ Definition api_segmap (keys probes : list N) : bytes :=
   let m := fold_left (fun (acc : segmap N * N) k => (sm_emplace (fst acc) k (snd acc), snd acc + 1)) keys (sm_empty, 0) in
   join sp (map (fun k => match sm_find (fst m) k with Some v => dec v | None => str "-" end) probes).
 
+(** the resume protocol of C12: pieces arrive one by one; after each, everything available is printed;
+    reports status, text and the stream position (bytes consumed so far) *)
+Fixpoint api_resume_loop (render : view -> bytes * bool) (rs : rstate) (pending : bytes) (consumed : N) (pieces : list bytes) : list bytes :=
+  match pieces with
+  | [] => []
+  | d :: r =>
+    let data := pending ++ d in
+    let (ps, e) := scan data in
+    match read_fold render rs ps (end_of_scan e) with
+    | (ls, part, st, rs') =>
+      let pending' := pending_of e in
+      let consumed' := consumed + lenN data - lenN pending' in
+      (end_token st ++ str "=" ++ hex (List.concat (map snd ls) ++ part) ++ str "=" ++ dec consumed')
+        :: api_resume_loop render rs' pending' consumed' r
+    end
+  end.
+Definition api_resume (fmt tfmt : bytes) (pieces : list bytes) : bytes :=
+  join sp (api_resume_loop (the_render fmt tfmt) rs_init [] 0 pieces).
+
 Definition nth_arg (args : list bytes) (i : nat) : bytes := nth i args [].
 
 Definition api (mode : bytes) (args : list bytes) : bytes :=
@@ -96,6 +115,7 @@ Definition api (mode : bytes) (args : list bytes) : bytes :=
   else if beq_bytes mode (str "tos") then api_tos (nth_arg args 0) (nth_arg args 1) (skipn 2 args)
   else if beq_bytes mode (str "filter") then api_filter true (nth_arg args 0) (nth_arg args 1) (skipn 2 args)
   else if beq_bytes mode (str "filter_noerase") then api_filter false (nth_arg args 0) (nth_arg args 1) (skipn 2 args)
+  else if beq_bytes mode (str "resume") then api_resume (nth_arg args 0) (nth_arg args 1) (skipn 2 args)
   else if beq_bytes mode (str "events") then api_events (nth_arg args 0)
   else if beq_bytes mode (str "segmap") then
     api_segmap (map le_dec (match payloads_of (nth_arg args 0) with Some l => l | None => [] end))
